@@ -659,7 +659,7 @@ func (ea *functionAnalysisState) transferCallStaticCallee(instrType *ssa.Call, g
 // jsonMarshal implements the effect of a marshalling operation. This is essentially to call the
 // MarshalJSON method on all the reachable types from the argument node.
 func (ea *functionAnalysisState) jsonMarshal(instrType *ssa.Call, g *EscapeGraph, args []*Node, rets []*Node) {
-	prog := instrType.Parent().Pkg.Prog
+	prog := instrType.Parent().Prog // Parent().Pkg is nil in synthetic functions and generic instances
 	marshalerInterface := lang.FindTypeByName(prog, "encoding/json", "Marshaler")
 	if marshalerInterface == nil {
 		ea.prog.logger.Errorf("Found function with reflect:JsonMarshal escape summary, but program does not import encoding/json")
@@ -692,7 +692,7 @@ func (ea *functionAnalysisState) jsonMarshal(instrType *ssa.Call, g *EscapeGraph
 // case of unmarshaling into the "any" type, which causes the marshalling code to generate some
 // fixed types (map[string]any, []any, string, float64, etc.).
 func (ea *functionAnalysisState) jsonUnmarshal(instrType *ssa.Call, g *EscapeGraph, args []*Node, rets []*Node) {
-	prog := instrType.Parent().Pkg.Prog
+	prog := instrType.Parent().Prog // Parent().Pkg is nil in synthetic functions and generic instances
 	marshalerInterface := lang.FindTypeByName(prog, "encoding/json", "Unmarshaler")
 	if marshalerInterface == nil {
 		ea.prog.logger.Errorf("Found function with reflect:JsonUnmarshal escape summary, but program does not import encoding/json")
